@@ -9,9 +9,11 @@ import (
 	"strings"
 	"testing"
 	"testing/synctest"
+	"time"
 
 	kb "github.com/libp2p/go-libp2p-kbucket"
 	"github.com/libp2p/go-libp2p/core/peer"
+	ma "github.com/multiformats/go-multiaddr"
 
 	"github.com/libp2p/go-libp2p-kad-dht/qpeerset"
 	vu "github.com/libp2p/go-libp2p-kad-dht/internal/verifutil"
@@ -75,7 +77,20 @@ func runC01(c *vu.Case) {
 		p := strings.SplitN(t, ":", 3)
 		peers[atoi(p[0])] = simPeer{beh: p[1][0], list: parseInts(p[2], ".")}
 	}
-	w = newWorld(n, "key-"+a["key"], BucketSize(K), Concurrency(atoi(a["a"])), Resiliency(atoi(a["b"])), disableFixLowPeersRoutine(c.T))
+	wopts := []Option{BucketSize(K), Concurrency(atoi(a["a"])), Resiliency(atoi(a["b"])), disableFixLowPeersRoutine(c.T)}
+	if a["qf"] != "" && a["qf"] != "-" {
+		wopts = append(wopts, QueryFilter(PublicQueryFilter))
+	}
+	w = newWorld(n, "key-"+a["key"], wopts...)
+	if a["qf"] != "" && a["qf"] != "-" {
+		w.qf = a["qf"]
+		for r := 0; r < len(w.qf) && r < n; r++ {
+			if w.qf[r] == 'k' {
+				// an address learned earlier (a previous lookup, identify): it passes the filter
+				w.h.Peerstore().AddAddrs(w.peerOf(r), []ma.Multiaddr{vAddr(r+1, 8, false)}, time.Hour)
+			}
+		}
+	}
 	if lim := atoi(a["div"]); lim > 0 {
 		// the lookup-level IP diversity filter (the routing table itself stays unfiltered)
 		w.d.rtPeerDiversityFilter = NewRTPeerDiversityFilter(w.h, 1000, lim)
@@ -487,8 +502,21 @@ func genC01(r *vu.RNG, c *vu.Case) bool {
 	if r.Chance(1, 4) {
 		div, gs = r.Range(1, 3), r.Range(1, 4)
 	}
-	c.In = append(c.In, fmt.Sprintf("lookup n=%d key=%d K=%d a=%d b=%d api=%s div=%d gs=%d rt=%s peers=%s", n, c.Idx, K, alpha, beta, api,
-		div, gs, strings.Join(rt, ","), strings.Join(specs, "|")))
+	qf := "-"
+	if div == 0 && r.Chance(1, 4) {
+		// an address-based query filter: some peers only have addresses it rejects, for some the passing address is not
+		// in the response but already in the peerstore
+		b := make([]byte, n)
+		for i := range b {
+			b[i] = "pppxk"[r.Intn(5)]
+		}
+		qf = string(b)
+	}
+	c.In = append(c.In, fmt.Sprintf("lookup n=%d key=%d K=%d a=%d b=%d api=%s div=%d gs=%d qf=%s rt=%s peers=%s", n, c.Idx, K, alpha, beta, api,
+		div, gs, qf, strings.Join(rt, ","), strings.Join(specs, "|")))
+	if qf != "-" {
+		c.Tag("query-filter")
+	}
 	if div > 0 {
 		c.Tag("diversity-filter")
 	}
